@@ -1116,18 +1116,19 @@ Proof.
   destruct (H Hlt) as (b0 & Hb & _). vm_compute in Hb. discriminate.
 Qed.
 
-(** the MsgSend wrapper and a token whose transfer answers false: success, nothing moved *)
+(** the MsgSend wrapper before the fix 1c369cb and a token whose transfer answers false:
+    success, nothing moved; now (and in [spec]) the message fails *)
 Definition wrap_state : st cham :=
   run cham_token impl [Eth 1 (UMint 1 10); Eth 1 (UMode 2)] (init false ∅ 0 (mkcham 0 ∅ 0 true)).
 
 Theorem wrapper_false_return_refuted :
-  let '(s', r) := msg_send cham_token impl wrap_state 1 2 7 in
+  let '(s', r) := msg_send cham_token pre_fix wrap_state 1 2 7 in
   r = OK /\ s' = wrap_state /\
   balance_of cham_token (tok s') 2 = Some 0 /\ balance_of cham_token (tok s') 1 = Some 10.
 Proof. vm_compute. repeat split. Qed.
 
-Theorem wrapper_false_return_spec :
-  snd (msg_send cham_token spec wrap_state 1 2 7) = EFalse.
+Theorem wrapper_false_return_fixed :
+  msg_send cham_token impl wrap_state 1 2 7 = (wrap_state, EFalse).
 Proof. vm_compute. done. Qed.
 
 (** * non-vacuity: histories in which every kind of conversion succeeds *)
@@ -1175,3 +1176,57 @@ Example selfdestructed_pair_dropped :
   let '(s', r) := step cham_token impl s (CC 1 1 10) in
   r = OK /\ reg s = true /\ reg s' = false /\ supply s' = supply s /\ supply s = 60 /\ cbal s' = cbal s.
 Proof. vm_compute. repeat split. Qed.
+
+(** * honest token: both sides of a successful message conversion *)
+Theorem honest_convert_coin_both_sides (s : st ledger) a b x s' :
+  msg_convert_coin HT s a b x = (s', OK) ->
+  0 < x /\ x <= zget (cbal s) a /\ a <> MODULE /\ b <> MODULE /\
+  if own_mod s
+  then (* escrow + mint *)
+       coin_moves s s' (fun c => x * ind MODULE c - x * ind a c) /\ supply s' = supply s /\
+       tok_moves s s' (fun c => x * ind b c) /\ ltotal (tok s') = ltotal (tok s) + x
+  else (* escrow + release of escrowed tokens + burn of the coins *)
+       coin_moves s s' (fun c => - x * ind a c) /\ supply s' = supply s - x /\
+       tok_moves s s' (fun c => x * ind b c - x * ind MODULE c) /\ ltotal (tok s') = ltotal (tok s).
+Proof.
+  unfold msg_convert_coin. destruct (Z.leb_spec x 0); [discriminate|].
+  destruct (N.eqb_spec a MODULE); [discriminate|]. intros Hc.
+  destruct (h_convert_coin _ _ _ _ _ _ Hc) as [[Hne _]|(_ & Hbl & _ & cb & l1 & lg & Hbs & Hrest)]; [done|].
+  apply blocked_false in Hbl. destruct (bank_send_spec _ _ _ _ _ Hbs) as (_ & Hle & Hz).
+  do 4 (split; [done|]). unfold coin_moves, tok_moves. destruct (own_mod s).
+  - destruct Hrest as [Hm ->]. destruct (std_mint_spec _ _ _ _ _ _ Hm) as (_ & _ & _ & _ & Ht & _ & Hzt & _). sst.
+    split; [intros c; rewrite Hz; lia|]. split; [done|]. split; [intros c; rewrite Hzt; lia|done].
+  - destruct Hrest as [Htr ->]. destruct (std_transfer_spec _ _ _ _ _ _ Htr) as (_ & _ & _ & _ & Ht & _ & Hzt & _). sst.
+    split.
+    { intros c. rewrite zget_zset. destruct (decide (MODULE = c)) as [<-|Hn].
+      - rewrite Hz, ind_same, (ind_diff a MODULE) by done. lia.
+      - rewrite Hz, (ind_diff MODULE c) by done. lia. }
+    split; [done|]. split; [intros c; rewrite Hzt; lia|done].
+Qed.
+
+Theorem honest_convert_erc20_both_sides (s : st ledger) a b x s' :
+  msg_convert_erc20 HT s a b x = (s', OK) ->
+  0 < x /\ x <= zget (lbal (tok s)) a /\ a <> MODULE /\ b <> MODULE /\
+  if own_mod s
+  then (* burn + release of escrowed coins *)
+       coin_moves s s' (fun c => x * ind b c - x * ind MODULE c) /\ supply s' = supply s /\
+       tok_moves s s' (fun c => - x * ind a c) /\ ltotal (tok s') = ltotal (tok s) - x
+  else (* escrow of the tokens + mint of the coins *)
+       coin_moves s s' (fun c => x * ind b c) /\ supply s' = supply s + x /\
+       tok_moves s s' (fun c => x * ind MODULE c - x * ind a c) /\ ltotal (tok s') = ltotal (tok s).
+Proof.
+  unfold msg_convert_erc20. destruct (Z.leb_spec x 0); [discriminate|].
+  destruct (N.eqb_spec a MODULE); [discriminate|]. intros Hc.
+  destruct (h_convert_erc20 _ _ _ _ _ _ Hc) as [[Hne _]|(_ & Hbl & _ & l1 & lg & Hrest)]; [done|].
+  apply blocked_false in Hbl. unfold coin_moves, tok_moves. destruct (own_mod s).
+  - destruct Hrest as (cb & _ & Hb & Hbs & ->).
+    destruct (std_burn_spec _ _ _ _ _ Hb) as (_ & Hx & _ & Ht & _ & Hzt & _).
+    destruct (bank_send_spec _ _ _ _ _ Hbs) as (_ & _ & Hz). sst.
+    do 4 (split; [done || lia|]). split; [intros c; rewrite Hz; lia|]. split; [done|].
+    split; [intros c; rewrite Hzt; lia|done].
+  - destruct Hrest as (Htr & _ & _ & ->).
+    destruct (std_transfer_spec _ _ _ _ _ _ Htr) as (_ & _ & Hx & _ & Ht & _ & Hzt & _). sst.
+    do 4 (split; [done || lia|]). split.
+    { intros c. rewrite zget_zset. unfold ind. destruct (decide (b = c)) as [->|]; lia. }
+    split; [done|]. split; [intros c; rewrite Hzt; lia|done].
+Qed.
